@@ -540,6 +540,10 @@ type Monitor struct {
 	Props         []string
 	Cond          string // field holding the sync.Cond tied to the lock
 	Monotone      []string // guarded boolean fields that only ever go false -> true (rely condition on other threads)
+	// Counts: guarded integer field -> ghost field holding THIS thread's share of it (counting ownership): every store
+	// to the field under verification moves the ghost by the same amount, so that `field >= share >= 0` can be an
+	// invariant although other threads change the field between critical sections (declared `counts field as ghost`)
+	Counts map[string]string
 }
 
 // GhostDef: for receivers of the concrete type, the ghost field is not free but defined by the object's state
@@ -627,7 +631,7 @@ var itemKeywords = map[string]bool{"func": true, "iface": true, "impl": true, "m
 	"spec": true, "axiom": true, "lemma": true, "immutable": true, "extern": true, "volatile": true, "funcfield": true, "funcvar": true, "chaninv": true, "wire": true}
 var clauseKeywords = map[string]bool{"facet": true, "requires": true, "ensures": true, "modifies": true, "panics-when": true, "cbassume": true,
 	"inline": true, "trusted": true, "loop": true, "param": true, "arith": true, "invariant": true, "implements": true,
-	"guards": true, "havocs": true, "pure": true, "names": true, "results": true, "opt": true, "safety": true, "attr": true, "cond": true, "monotone": true}
+	"guards": true, "havocs": true, "pure": true, "names": true, "results": true, "opt": true, "safety": true, "attr": true, "cond": true, "monotone": true, "counts": true}
 
 // logical lines: a line whose first word is a keyword starts a new logical line; other lines continue the previous.
 func logicalLines(raw []string) []string {
@@ -790,6 +794,20 @@ func (sp *Specs) parseFile(path, pkgName string, lines []string) error {
 			for _, g := range strings.Split(r, ",") {
 				curMon.Monotone = append(curMon.Monotone, strings.TrimSpace(g))
 			}
+		case "counts":
+			// counts <field> as <ghost>
+			f := strings.Fields(r)
+			if curMon == nil || len(f) != 3 || f[1] != "as" {
+				return fail(ln, fmt.Errorf("want (inside a monitor): counts <field> as <ghost>"))
+			}
+			if curMon.Counts == nil {
+				curMon.Counts = map[string]string{}
+			}
+			curMon.Counts[f[0]] = f[2]
+			if g, dup := sp.Ghosts[f[2]]; dup && (!g.Field || g.Sort != "int") {
+				return fail(ln, fmt.Errorf("ghost %s declared twice with different shapes", f[2]))
+			}
+			sp.Ghosts[f[2]] = &GhostDecl{Name: f[2], Field: true, Type: "ref", Sort: "int", Default: "0"}
 		case "cond":
 			if curMon == nil {
 				return fail(ln, fmt.Errorf("cond outside monitor"))
